@@ -152,6 +152,15 @@ impl<T: AsyncRead + Unpin> Stream<T> {
         })
     }
 
+    /// Read and discard the payload of a frame that will not be decoded.
+    pub async fn skip_payload(&mut self, size: usize) -> std::io::Result<()> {
+        let mut payload_buffer = vec![0u8; size];
+
+        self.inner.read_exact(&mut payload_buffer).await?;
+
+        Ok(())
+    }
+
     pub async fn recv_packet<P: Packetize>(&mut self, size: usize) -> std::io::Result<P> {
         if size == 0 {
             return Err(std::io::Error::new(
@@ -161,6 +170,11 @@ impl<T: AsyncRead + Unpin> Stream<T> {
         }
 
         if P::MESSAGE_SIZE.is_some() && size != P::MESSAGE_SIZE.unwrap() {
+            // Consume the announced payload so the stream stays aligned on frame boundaries
+            if size <= MAX_PAYLOAD_SIZE {
+                self.skip_payload(size).await?;
+            }
+
             return Err(std::io::Error::new(
                 std::io::ErrorKind::InvalidData,
                 format!(
